@@ -365,6 +365,10 @@ func (g *gen) loopStmt(depth int) []Stmt {
 		var upd Stmt = &IncDec{L: cref(), Inc: true}
 		if g.chance(30, "fupd") {
 			upd = &Assign{L: cref(), Op: "+", R: &Lit{T: ctr.T, Bits: 1}}
+		} else if g.chance(20, "fupdcall") && !g.noCalls && !g.f.off("loop.update-call") {
+			// the update clause calls a helper that nothing else calls
+			g.class("stmt:for:update-calls-helper")
+			upd = &Assign{L: cref(), R: &CallE{Fn: g.stepFn(ctr.T), Args: []Expr{cref()}}}
 		}
 		return []Stmt{&For{Init: &DeclStmt{V: ctr}, Cond: &Binary{Op: "<", L: cref(), R: limE, T: TBool}, Update: upd, Body: body}}
 	case 1:
@@ -390,7 +394,12 @@ func (g *gen) loopStmt(depth int) []Stmt {
 			g.inLoop = 0 // no break/continue inside continuing
 			save := g.noReturn
 			g.noReturn = true
-			l.Continuing = append(g.block(g.intn(2, "cbn"), 0), &IncDec{L: cref(), Inc: true})
+			var step Stmt = &IncDec{L: cref(), Inc: true}
+			if g.chance(20, "cupdcall") && !g.noCalls && !g.f.off("loop.update-call") {
+				g.class("stmt:continuing:calls-helper")
+				step = &Assign{L: cref(), R: &CallE{Fn: g.stepFn(ctr.T), Args: []Expr{cref()}}}
+			}
+			l.Continuing = append(g.block(g.intn(2, "cbn"), 0), step)
 			g.noReturn = save
 			g.inLoop = saveLoop
 			l.BreakIf = &Binary{Op: ">=", L: cref(), R: limE, T: TBool}
@@ -401,6 +410,17 @@ func (g *gen) loopStmt(depth int) []Stmt {
 		g.pop()
 		return []Stmt{&DeclStmt{V: ctr}, l}
 	}
+}
+
+// stepFn declares a fresh helper `fn step_N(x: T) -> T { return x + 1; }` that only
+// the loop being generated calls (a function reachable from a continuing block /
+// for-update clause alone).
+func (g *gen) stepFn(t *Type) *Func {
+	x := &Var{Name: g.name("p"), Kind: VParam, T: t}
+	f := &Func{Name: g.name("step_"), Params: []*Var{x}, Ret: t}
+	f.Body = []Stmt{&Return{X: &Binary{Op: "+", L: &VarRef{x}, R: &Lit{T: t, Bits: 1}, T: t}}}
+	g.mod.Decls = append(g.mod.Decls, f)
+	return f
 }
 
 func (g *gen) returnStmt() Stmt {
